@@ -1233,3 +1233,179 @@ func ruleRegistry(r *Run) {
 		}
 	}
 }
+
+// ruleFramePair (E6): the session's frame worker starts with the session, serves the registered
+// callbacks under the registration lock, and stops exactly when the session is closed.
+func ruleFramePair(r *Run) {
+	if r.broken() {
+		return
+	}
+	// NewSession: stop channel has room for the one stop signal
+	if fn := r.modelFunc("models.NewSession"); fn != nil {
+		ok := false
+		ast.Inspect(fn.Body, func(n ast.Node) bool {
+			kv, isKV := n.(*ast.KeyValueExpr)
+			if !isKV {
+				return true
+			}
+			if id, isID := kv.Key.(*ast.Ident); isID && id.Name == "closeFrameChan" {
+				if call, isCall := ast.Unparen(kv.Value).(*ast.CallExpr); isCall && len(call.Args) == 2 {
+					if c, isC := intConstVal(fn.Info(), call.Args[1]); isC && c >= 1 {
+						ok = true
+					}
+				}
+			}
+			return true
+		})
+		r.Check("E6", fn.Name+":stop-channel-buffered", ok, fn.Body.Pos(), "the frame worker's stop channel can hold the one stop signal even when the worker is busy or has not started")
+	}
+	// Close: under Once, stop the ticker and send the signal (plain send: never dropped)
+	if fn := r.modelFunc("models.(*Session).Close"); fn != nil {
+		r.Analysed(fn, 1)
+		sent := 0
+		for _, path := range r.Paths(fn) {
+			entered := false
+			for _, ev := range path.Events {
+				if ev.Kind == EvEnter {
+					if f, ok := ev.Via.(*types.Func); ok && f.FullName() == "(*sync.Once).Do" {
+						entered = true
+					}
+				}
+			}
+			if !entered {
+				continue
+			}
+			s, stop := 0, 0
+			for _, ev := range path.Events {
+				if ev.Kind == EvChanOp && ev.Send && r.P.Canon(fn, ev.Chan) == "recv.closeFrameChan" {
+					s++
+					r.CheckT("E6", fn.Name+":signal-not-droppable", !ev.NonBlocking, ev.Pos, &path, "the stop signal is sent with a plain send (a select/default would drop it while the worker is dispatching a frame, and the worker of an ended session would run forever)")
+				}
+				if ev.Kind == EvCall {
+					if f, ok := ev.Callee.(*types.Func); ok && f.FullName() == "(*time.Ticker).Stop" {
+						stop++
+					}
+				}
+			}
+			sent += s
+			r.CheckT("E6", fn.Name+":stops", s == 1 && stop == 1, fn.Body.Pos(), &path, "closing a session stops its ticker and signals its worker, once")
+		}
+		r.Check("E6", fn.Name+":once", sent >= 1, fn.Body.Pos(), "Close signals the worker inside sync.Once")
+	}
+	// worker loop
+	if fn := r.modelFunc("models.(*Session).StartDispatchFrames"); fn != nil {
+		paths := r.Paths(fn)
+		r.Analysed(fn, len(paths))
+		ticks, exits := 0, 0
+		for pi := range paths {
+			path := &paths[pi]
+			held := r.locksAlong(path, lockset{})
+			for i, ev := range path.Events {
+				if ev.Kind == EvReturn && ev.Depth > 0 {
+					// leaving the worker: only after the stop signal
+					okExit := false
+					for j := i - 1; j >= 0; j-- {
+						pe := path.Events[j]
+						if pe.Kind == EvChanOp && !pe.Send {
+							okExit = r.P.Canon(pe.Fn, pe.Chan) == "recv.closeFrameChan"
+							break
+						}
+					}
+					exits++
+					r.CheckT("E6", fn.Name+":exit-on-close-only", okExit, ev.Pos, path, "the frame worker ends only when the session's stop signal arrives")
+				}
+				if ev.Kind == EvGuard && ev.GKind == GRange && ev.Val {
+					rs := ev.Stmt.(*ast.RangeStmt)
+					ticks++
+					r.CheckT("E6", fn.Name+":serves-registered", r.P.Canon(ev.Fn, rs.X) == "recv.frameHandlers" && held[i]["Session.frameMutex"] != "", ev.Pos, path,
+						"on each tick the worker walks the session's current frame-callback table itself, holding the registration lock (a copy or a cache would miss a newly joined member or call one that has left)")
+					for j := i + 1; j < len(path.Events); j++ {
+						pe := path.Events[j]
+						if pe.Kind == EvGuard && pe.GKind == GRange {
+							break
+						}
+						if pe.Kind == EvCall && pe.Call != nil && r.P.Canon(pe.Fn, pe.Call.Fun) == "rangeval(recv.frameHandlers)" {
+							r.CheckT("E6", fn.Name+":calls-under-lock", held[j]["Session.frameMutex"] != "", pe.Pos, path,
+								"a frame callback runs while the registration lock is held, so unregistering (on leave) waits for the frame in progress and no callback runs after its connection is gone")
+						}
+					}
+				}
+			}
+			r.loopsComplete("E6", fn, path)
+		}
+		r.Check("E6", fn.Name+":shape", ticks >= 1 && exits >= 1, fn.Body.Pos(), "the worker has a tick arm and a stop arm (%d, %d)", ticks, exits)
+	}
+	// started with the session: go StartDispatchFrames right after a successful registry Add, for the created session
+	if jf := r.modelFunc("websocket.(*RealtimeHandler).HandleParticipantJoin"); jf != nil {
+		add := r.P.LookupFunc(pkgModels, "SessionStore", "Add")
+		sdf := r.P.LookupFunc(pkgModels, "Session", "StartDispatchFrames")
+		created, started := 0, 0
+		for _, path := range r.Paths(jf) {
+			iAdd := idxOfCall(&path, add, 0)
+			goIdx := -1
+			for i, ev := range path.Events {
+				if ev.Kind == EvGo && ev.Callee == sdf {
+					goIdx = i
+					r.CheckT("E6", jf.Name+":worker-for-created-session", iAdd >= 0 && iAdd < i && r.P.Canon(jf, ev.Recv) == r.P.Canon(jf, path.Events[max0(iAdd)].Call.Args[1]), ev.Pos, &path,
+						"a frame worker is started for exactly the session that was just created and registered")
+				}
+			}
+			if iAdd >= 0 {
+				created++
+				if goIdx > iAdd {
+					started++
+				}
+			}
+		}
+		r.Check("E6", jf.Name+":worker-started", created >= 1 && created == started, jf.Body.Pos(), "every path that creates a session starts its frame worker (%d of %d)", started, created)
+		// registration of the connection's callback on join
+		hf := r.P.LookupFunc(pkgModels, "Session", "HandleFrame")
+		for _, path := range r.Paths(jf) {
+			iAddP := idxOfCall(&path, r.P.LookupFunc(pkgModels, "Session", "AddParticipant"), 0)
+			if iAddP < 0 {
+				continue
+			}
+			iHF := idxOfCall(&path, hf, 0)
+			okReg := iHF >= 0
+			if okReg {
+				ev := path.Events[iHF]
+				okReg = r.P.Canon(jf, ev.Call.Args[0]) == "param:handleFrame" && r.isJoinLocalSession(jf, ev.Recv)
+				stored := false
+				for _, pe := range path.Events[iHF:] {
+					if pe.Kind == EvAssign && len(pe.Lhs) == 1 && r.P.Canon(jf, pe.Lhs[0]) == "recv.stopFrameHandling" {
+						stored = strings.Contains(r.P.Canon(jf, pe.Rhs[0]), "call:Session.HandleFrame(param:handleFrame)")
+						break
+					}
+				}
+				okReg = okReg && stored
+			}
+			r.CheckT("E6", jf.Name+":registers-frame-callback", okReg, jf.Body.Pos(), &path, "joining registers the connection's frame callback with the joined session and keeps the function that unregisters it")
+		}
+	}
+	// HandleFrame: register under the lock; the returned cancel removes exactly that entry under the lock
+	if fn := r.modelFunc("models.(*Session).HandleFrame"); fn != nil {
+		r.Analysed(fn, 1)
+		for _, path := range r.Paths(fn) {
+			held := r.locksAlong(&path, lockset{})
+			okW := false
+			for _, op := range r.mapOps(fn, &path) {
+				if op.Kind == "write" && op.Map == "recv.frameHandlers" && op.Val == "param:h" && held[op.Idx]["Session.frameMutex"] == "W" {
+					okW = true
+				}
+			}
+			r.CheckT("E6", fn.Name+":registers", okW, fn.Body.Pos(), &path, "HandleFrame enters the callback into the table under the registration lock")
+		}
+		for _, lf := range r.litsUnder(fn) {
+			for _, path := range r.Paths(lf) {
+				held := r.locksAlong(&path, lockset{})
+				okD := false
+				for _, op := range r.mapOps(lf, &path) {
+					if op.Kind == "delete" && op.Map == "recv.frameHandlers" && held[op.Idx]["Session.frameMutex"] == "W" {
+						okD = true
+					}
+				}
+				r.CheckT("E6", fn.Name+":cancel-removes", okD, lf.Body.Pos(), &path, "the returned cancel function removes the callback under the registration lock")
+			}
+		}
+	}
+}
